@@ -305,7 +305,10 @@ ctx.add_page("Template:id0", 10, "<{{{0|none}}}>")
 for txt, want_calls in (("{{#switch:q|a=1|{{a|s}}}}", [("a", {1: "s"})]), ("{{#switch:q|a=1|b|{{a|t}}}}", [("a", {1: "t"})]),
                         ("{{#switch:q|{{a|u}}=1|#default={{a|v}}}}", [("a", {1: "u"}), ("a", {1: "v"})]),
                         ("{{#if:{{a|w}}|{{a|x}}|{{a|y}}}}", [("a", {1: "w"}), ("a", {1: "x"})]),
-                        ("{{id0|0=z}}", [("id0", {"0": "z"})]), ("{{id0|00=z|1=y}}", [("id0", {"00": "z", 1: "y"})])):
+                        ("{{id0|0=z}}", [("id0", {"0": "z"})]), ("{{id0|00=z|1=y}}", [("id0", {"00": "z", 1: "y"})]),
+                        # named values that span several lines, names with inner blanks
+                        ("{{a|k=l1\nl2}}", [("a", {"k": "l1\nl2"})]), ("{{a|k = l1\n\nl2 |m=\nx\n}}", [("a", {"k": "l1\n\nl2", "m": "x"})]),
+                        ("{{a|first name=v\nw|p}}", [("a", {"first name": "v\nw", 1: "p"})])):
     calls = []
     ctx.start_page("Tt")
     with quiet_stdout():
